@@ -196,7 +196,13 @@ class Spy:
             return spy._zr(zs, name, *a, **k)
 
         def textract(ts, member):
-            spy.events.append(("tar-extractfile", getattr(member, "name", member)))
+            size = getattr(member, "size", 0)
+            try:
+                if hasattr(member, "islnk") and (member.islnk() or member.issym()):
+                    size = ts._find_link_target(member).size          # what reading through the link will deliver
+            except Exception:  # noqa
+                pass
+            spy.events.append(("tar-extractfile", getattr(member, "name", member), size))
             return spy._tx(ts, member)
 
         def sdecomp(rs, folder, *a, **k):
@@ -231,7 +237,7 @@ class Spy:
         return False
 
 
-def build_archive(fmt: str, sizes: list[int], names: list[str] | None = None, layout: str = "per-file") -> bytes:
+def build_archive(fmt: str, sizes: list[int], names: list[str] | None = None, layout: str = "per-file", links: list | None = None) -> bytes:
     names = names or [f"m{i}.txt" for i in range(len(sizes))]
     datas = [(b"line %d of text\n" % i * (s // 10 + 2))[:s] for i, s in enumerate(sizes)]
     buf = io.BytesIO()
@@ -245,17 +251,23 @@ def build_archive(fmt: str, sizes: list[int], names: list[str] | None = None, la
                 ti = tarfile.TarInfo(n)
                 ti.size = len(d)
                 tf.addfile(ti, io.BytesIO(d))
+            for li, (target, hard) in enumerate(links or []):
+                # a link entry with a visible, supported name pointing at member `target` (its own header size is 0)
+                ti = tarfile.TarInfo(f"link{li}.txt")
+                ti.type = tarfile.LNKTYPE if hard else tarfile.SYMTYPE
+                ti.linkname = names[target % len(names)]
+                tf.addfile(ti)
     else:
         from vf.gen import sevenz
         return sevenz.write_7z([sevenz.Member(n, d) for n, d in zip(names, datas)], method="lzma2" if max(sizes) > 4096 else "copy", layout=layout)
     return buf.getvalue()
 
 
-def judge_member_limit(fmt: str, limit: int | None, sizes: list[int], layout: str = "per-file"):
+def judge_member_limit(fmt: str, limit: int | None, sizes: list[int], layout: str = "per-file", links: list | None = None):
     """limit None = default (10 MiB). Members are text files m<i>.txt of the given sizes."""
     from sharepoint2text.parsing.extractors import archive_extractor as ax
     from sharepoint2text.parsing.extractors.archive_extractor import read_archive
-    raw = build_archive(fmt, sizes, layout=layout)
+    raw = build_archive(fmt, sizes, layout=layout, links=links if fmt.startswith("tar") else None)
     eff = 10 * MIB if limit is None else limit
     saved = ax._config
     fails = []
@@ -285,6 +297,9 @@ def judge_member_limit(fmt: str, limit: int | None, sizes: list[int], layout: st
                 fails.append(("oversize-read", f"{fmt}: oversize member {n} ({s} > {eff}) was read: {spy.events[:6]}"))
             if any(e[0] == "temp-file" and e[1] == n for e in spy.events):
                 fails.append(("oversize-written", f"{fmt}: oversize member {n} ({s} > {eff}) was written to the temp directory"))
+    big_reads = [e for e in spy.events if e[0] == "tar-extractfile" and len(e) > 2 and e[2] > eff]
+    if big_reads:
+        fails.append(("oversize-read", f"{fmt}: {big_reads[0][1]!r} was read although it delivers {big_reads[0][2]} bytes (limit {eff}); links={links}"))
     if fmt == "7z" and layout == "per-file":
         wanted = sum(1 for s in sizes if 0 < s <= eff)
         dec = [e for e in spy.events if e[0] == "7z-decompress"]
@@ -360,7 +375,7 @@ def limits_random_shard(ctx: Ctx):
             return {"kind": kind, "limit": draw(st.sampled_from([L, L, L, 0])), "size": around(), "ext": draw(st.sampled_from(["txt", "md", "csv", "json", "html"])), "sparse": False}
         n = draw(st.integers(1, 4))
         return {"kind": kind, "fmt": draw(st.sampled_from(["zip", "tar", "tar.gz", "7z"])), "limit": L, "sizes": [around() for _ in range(n)],
-                "layout": draw(st.sampled_from(["per-file", "per-file", "solid", "mixed"]))}
+                "layout": draw(st.sampled_from(["per-file", "per-file", "solid", "mixed"])), "links": draw(st.lists(st.tuples(st.integers(0, 3), st.booleans()).map(list), max_size=2))}
 
     def ev(c):
         out = []
@@ -368,7 +383,7 @@ def limits_random_shard(ctx: Ctx):
             fails = judge_read_file(c["limit"], c["size"], c["ext"], c.get("sparse", False))
             near = c["limit"] > 0 and abs(c["size"] - c["limit"]) <= 1
         else:
-            fails = judge_member_limit(c["fmt"], c["limit"], c["sizes"], c.get("layout", "per-file"))
+            fails = judge_member_limit(c["fmt"], c["limit"], c["sizes"], c.get("layout", "per-file"), c.get("links"))
             near = any(abs(s - c["limit"]) <= 1 for s in c["sizes"])
         part.case(digest(c), near, sample=c if part.evaluations % 61 == 0 else None, limit=c["kind"], fmt=c.get("fmt", c.get("ext")))
         for cl, d in fails[:1]:
@@ -397,7 +412,7 @@ def replay(ctx: Ctx, payload: dict):
     if k == "read-file":
         fails = judge_read_file(payload["limit"], payload["size"], payload["ext"], payload.get("sparse", False))
     elif k == "member-limit":
-        fails = judge_member_limit(payload["fmt"], payload["limit"], payload["sizes"], payload.get("layout", "per-file"))
+        fails = judge_member_limit(payload["fmt"], payload["limit"], payload["sizes"], payload.get("layout", "per-file"), payload.get("links"))
     elif k == "7z-size":
         res = measured(_judge_7z_size, payload["delta"], cpu_limit_s=120)
         fails = res["out"][1] if res["out"][0] == "ok" else [("killed", str(res))]
